@@ -67,6 +67,7 @@ def strat_focus(tier):
         'Qfix': st.one_of(st.sampled_from([1.0, 2.0, 0.5, 1.37]), U.nice_float(0.4, 4).map(lambda v: round(v, 3))),
         'out': st.one_of(st.tuples(oax, oax).map(list), oax.map(lambda k: [k, k])),
         'shift': st.one_of(st.just([0, 0]), st.tuples(sh, sh).map(list)),     # in units of output samples; converted to output units
+        'shift_type': st.sampled_from(['tuple', 'tuple', 'ndarray']),
     })
 
 
@@ -132,6 +133,14 @@ def check_focus(case, ctx):
     dxo = lam * efl / (Dx * case['Qfix'])          # requested output spacing: Qfix along x
     shift_units = (case['shift'][0] * dxo, case['shift'][1] * dxo)
     shifted = any(s != 0 for s in case['shift'])
+    # the shift may be handed over as a tuple, a list or a float64 ndarray; the caller's object must come back unchanged
+    styp = case.get('shift_type', 'tuple')
+    if not shifted:
+        styp = 'tuple'      # the documented type; a zero shift is passed through to the executors' cache key and must be hashable
+    shift_arg = {'tuple': tuple, 'ndarray': lambda v: np.array(v, dtype=np.float64)}[styp](shift_units)
+    shift_units_t = shift_units
+    shift_units = shift_arg
+    ctx.label('shift-as:' + styp)
     ctx.nt(frac or shifted or ny != nx or case['Qfix'] != 1.0)
     ctx.label('shifted' if shifted else 'unshifted', 'out-square' if my == mx else 'out-nonsquare')
     if via == 'function':
@@ -143,6 +152,9 @@ def check_focus(case, ctx):
         ctx.require(abs(wo.dx - dxo) <= 1e-12 * dxo, 'focus_fixed_sampling:dx', 'reported dx %r != requested %r' % (wo.dx, dxo))
     data = np.asarray(data)
     U.check_shape(data, (my, mx), 'focus_fixed_sampling')
+    ctx.require(tuple(float(v) for v in shift_arg) == tuple(float(v) for v in shift_units_t), 'focus_fixed_sampling:argument-modified',
+                'the caller\'s shift %s was changed in place: %r -> %r' % (styp, shift_units_t, tuple(float(v) for v in shift_arg)))
+    shift_units = shift_units_t
     norm = math.sqrt(dxp * dxo / (lam * efl)) ** 2
     scale = (scale_f * norm) ** 2
     I = np.abs(data) ** 2
@@ -179,6 +191,7 @@ def strat_unfocus(tier):
         'dxf': st.sampled_from([1.0, 2.5, 6.5]), 'wvl': st.sampled_from([0.5, 0.6328, 1.55]), 'efl': st.sampled_from([20.0, 100.0, 1500.0]),
         'Q': st.one_of(st.sampled_from([1.0, 2.0, 0.5, 1.37]), U.nice_float(0.4, 4).map(lambda v: round(v, 3))),
         'route': st.sampled_from(['fft', 'mdft', 'czt', 'mdft', 'czt']), 'via': st.sampled_from(['function', 'wavefront']),
+        'shift': st.one_of(st.just([0, 0]), st.just([0, 0]), st.tuples(st.integers(-6, 6).map(lambda k: k / 2), st.integers(-6, 6).map(lambda k: k / 2)).map(list)),
     })
 
 
@@ -224,18 +237,37 @@ def check_unfocus(case, ctx):
     if via == 'wavefront':
         py_ = px_
     dxp = lam * efl / (mx * dxf * case['Q'])
+    ssam = case.get('shift', [0, 0])
+    shifted = any(v != 0 for v in ssam)
+    sh = (ssam[0] * dxp, ssam[1] * dxp)          # output (pupil) units
     if via == 'function':
-        g = ctx.call(P.unfocus_fixed_sampling, F, dxf, efl, lam, dxp, (py_, px_), method=route)
+        g = ctx.call(P.unfocus_fixed_sampling, F, dxf, efl, lam, dxp, (py_, px_), shift=sh, method=route)
     else:
         w = P.Wavefront(F, lam, dxf, space='psf')
-        wo = ctx.call(w.unfocus_fixed_sampling, efl, dxp, (py_, px_), method=route)
+        wo = ctx.call(w.unfocus_fixed_sampling, efl, dxp, (py_, px_), shift=sh, method=route)
         g = wo.data
         ctx.require(abs(wo.dx - dxp) <= 1e-12 * dxp, 'unfocus_fixed_sampling:dx', 'reported dx %r != requested %r' % (wo.dx, dxp))
     g = np.asarray(g)
     U.check_shape(g, (py_, px_), 'unfocus_fixed_sampling')
+    norm = dxp * dxf / (lam * efl)
+    if shifted:
+        # a requested shift translates the pupil-plane output by exactly that many output units (a pure phase is allowed):
+        # |g| must equal the modulus of the explicit inverse sum at the coordinates (index - n//2)*dx -+ shift
+        ctx.label('unfocus-shifted')
+        ctx.nt(True)
+        errs = {}
+        sc = float(np.abs(F).sum()) * norm
+        for sgn in (1, -1):
+            X = U.cvec(px_) * dxp - sgn * sh[0]
+            Y = U.cvec(py_) * dxp - sgn * sh[1]
+            ref = (np.exp(2j * np.pi * np.outer(Y, xi_y) / (lam * efl)) @ F @ np.exp(2j * np.pi * np.outer(xi_x, X) / (lam * efl))) * norm
+            errs[sgn] = float(np.abs(np.abs(g) - np.abs(ref)).max()) if np.all(np.isfinite(g)) else float('inf')
+        ctx.require(min(errs.values()) <= 1e-9 * sc, 'unfocus_fixed_sampling:' + route + ':shift',
+                    '%s unfocus of %s onto %s (dx %.6g mm) with shift %r mm: modulus is off the explicit inverse sum at the shifted coordinates by %.3g / %.3g (scale %.3g)' % (
+                        route, fshape, (py_, px_), dxp, sh, errs[1], errs[-1], sc))
+        return
     X = U.cvec(px_) * dxp
     Y = U.cvec(py_) * dxp
-    norm = dxp * dxf / (lam * efl)
     ref = (np.exp(2j * np.pi * np.outer(Y, xi_y) / (lam * efl)) @ F @ np.exp(2j * np.pi * np.outer(xi_x, X) / (lam * efl))) * norm
     U.check_close(g, ref, 0, 'unfocus_fixed_sampling:' + route + (':nonsquare-input' if my != mx else ''),
                   '%s unfocus of impulse at %r in %s (dx %.4g um) onto %s (dx %.6g mm)' % (route, [iy, ix], fshape, dxf, (py_, px_), dxp),
